@@ -335,6 +335,14 @@ pub fn check_case(id: &str, text: &str, c: Config, sink: &mut Sink) -> (bool, u1
             return (true, ms);
         }
     };
+    // C11 (files with ignore directives keep verbatim text: excluded)
+    if !text.contains("stylua: ignore") {
+        if let Some(to) = tokens(&out, c.syntax) {
+            for b in crate::c11::check(&ast_in, &ast_out, &out, &to, &c) {
+                sink.v("C11", &format!("{}:option:{}", id, b), detail(json!({"rule": b})));
+            }
+        }
+    }
     // C02
     if !c.sort_requires.enabled {
         let a = nf::normal_form(ast_in);
